@@ -15,7 +15,8 @@ RULE = ("case = 1-5 watchers with priorities from a small range (ties "
         "per-spawn cost (virtual time a fork+exec takes) in {1 us, 20 ms, "
         "45 ms}; the "
         "daemon start plus 0-3 further sequences (start, restart or "
-        "reload-without-graceful without "
+        "reload (graceful off: all restarted; graceful on: the stopped "
+        "ones started) without "
         "a name or with a glob matching several watchers; a per-watcher "
         "warmup_delay changed by a set request before; several watcher "
         "sections added to the ini file and a reloadconfig; all or some watchers "
@@ -243,11 +244,18 @@ def execute(case):
             props = {"waiting": True}
             if sq.get("glob"):
                 props["name"] = sq["glob"]
+            stopped0 = None
             if kind == 'reload-terminate':
                 # reload without graceful = every watcher is restarted
                 props["graceful"] = False
                 classes.add('reload-terminate-sequence')
-            r = w.request('reload' if kind == 'reload-terminate' else kind,
+            elif kind == 'reload-graceful':
+                # a graceful reload *starts* the watchers it finds stopped
+                # (the running ones get a new generation at once: not a
+                # start, not judged)
+                stopped0 = [n for n in wmap if h.status(n) == 'stopped']
+                classes.add('reload-graceful-sequence')
+            r = w.request('reload' if kind.startswith('reload-') else kind,
                           props)
             if case.get("periodic"):
                 w.advance_until(lambda: r.answered, w.loop.time() + 600.0)
@@ -266,7 +274,8 @@ def execute(case):
                 classes.add('multi-watcher-sequence')
             analyse('%s%s' % (kind, '-glob' if sq.get("glob") else '-all'),
                     [r_ for r_ in k.spawn_log[n0:]
-                     if t_end is None or r_["t"] <= t_end + EPS],
+                     if (t_end is None or r_["t"] <= t_end + EPS) and
+                     (stopped0 is None or r_["owner"] in stopped0)],
                     wmap, matched, gwarm, viols)
         if w.blocked:
             viols.append(Violation('C19:blocked:%s' % w.blocked_where,
@@ -328,7 +337,8 @@ def _strategy():
                 continue
             sq = {"kind": draw(st.sampled_from(['start', 'restart',
                                                 'restart',
-                                                'reload-terminate'])),
+                                                'reload-terminate',
+                                                'reload-graceful'])),
                   "stop_first": draw(st.booleans()),
                   "faults": draw(st.lists(fault, max_size=2))}
             if draw(st.integers(0, 2)) == 0:
